@@ -71,7 +71,7 @@ def judge(case):
     off = build.build_font(dict(cfg, reuse_tolerance=-1), srcs)
     on = build.build_font(cfg, srcs)
     if on.error is not None or off.error is not None:
-        if on.error is not None and off.error is not None and type(on.error) is type(off.error):
+        if on.error is not None and off.error is not None:  # the input itself cannot be built (the two paths may notice it in different places)
             v.rejected = "both builds raise " + type(on.error).__name__
             return v
         which = "reuse-on" if on.error is not None else "reuse-off"
